@@ -36,8 +36,9 @@ class Cluster:
         self.mute_ids = False  # a site wrapper swallows the "job id" line (esub, banner)
 
     # ------------------------------------------------------------------ helpers
-    def add(self, jid, state, owner="me", steps=()):
-        self.jobs[str(jid)] = {"state": state, "deps": set(), "dep_kind": None, "owner": owner, "steps": list(steps)}
+    def add(self, jid, state, owner="me", steps=(), acct=None):
+        """acct: what the accounting database says when it lags behind the live queue (sacct only)"""
+        self.jobs[str(jid)] = {"state": state, "deps": set(), "dep_kind": None, "owner": owner, "steps": list(steps), "acct": acct}
 
     def _new(self, deps, kind):
         self.next_id += 1
@@ -135,7 +136,8 @@ class Cluster:
             j = self.jobs.get(jid)
             if j is None or jid in self.purged:
                 continue
-            rows = [(jid, self._LONG.get(j["state"], j["state"]))]
+            st_acct = j.get("acct") or j["state"]
+            rows = [(jid, self._LONG.get(st_acct, st_acct))]
             if not alloc_only:
                 rows += [(f"{jid}.{suffix}", self._LONG.get(code, code)) for suffix, code in j["steps"]]
             for rid, st in rows:
@@ -336,7 +338,8 @@ def _history(kind):
             if code is None:
                 cl.purged.add(jid)
             else:
-                cl.add(jid, code, steps=[("batch", code), ("0", "F")] if code == "CD" else [("batch", code)])
+                # the accounting database lags: it still lists the running job as pending (the live queue is what counts)
+                cl.add(jid, code, steps=[("batch", code), ("0", "F")] if code == "CD" else [("batch", code)], acct="PD" if code == "R" else None)
         cl.add("777", "R", owner="other")
         table = REF.SLURM_SHORT
     elif kind == "lsf":
